@@ -1,9 +1,11 @@
 (* AdfStack.v -- executable model of the ADF core's priority stack, the 50-entry cache of file headers, node
    headers, the free-chunk table and sub-node table entries (property C02, extension C02b).  Definitions only.
 
-   Transcribed from src/adf/ADF_internals.c:
+   Transcribed from src/adf/ADF_internals.c (line numbers of /repo def473d):
      PRISTK[MAX_STACK] and its enums (331-343), last_link_ID (277),
-     ADFI_stack_control (7198-7347): INIT_STK, CLEAR_STK, CLEAR_STK_TYPE, DEL_STK_ENTRY, GET_STK, SET_STK.
+     ADFI_stack_control (7225-7374): INIT_STK, CLEAR_STK, CLEAR_STK_TYPE, DEL_STK_ENTRY, GET_STK, SET_STK.
+   (last_link_ID is also reset at the end of ADFI_write_sub_node_table_entry since 9d19299 and set by ADFI_chase_link;
+    neither is a stack call: the model carries the variable only for the reset inside the clear modes.)
    An entry is (file_index, file_block, block_offset, stack_type, priority_level, stack_data); an unused entry is
    (-1, 0, 0, -1, -1, -).  Priorities are Z (the C int would wrap after 2^31 SET calls on one untouched entry).
    malloc never fails here.  Whether the slot [file_index] is in use is an input of each step.
